@@ -241,6 +241,9 @@ func propC16(c *Ctx) {
 		}
 	}
 
+	rcf := c.Rule("copy-fields", "copying an error value keeps all of its fields: RuntimeError.Copy carries the file set (without it a derived error prints '-' for every trace position) and the trace", 2)
+	ruleCopyFields(c, rcf, "Error", "RuntimeError")
+
 	// ---- throw-trace -------------------------------------------------------------------------------------
 	rr := c.Rule("throw-trace", "throwing appends the current position to the error's trace unless re-throwing, and one position per unwound caller frame", 1)
 	throw := l.Method(modPath, "VM", "throw")
